@@ -1046,6 +1046,9 @@ func (s *scanner) ScanBytes(accept func(b byte) bool) error {
 		if err == io.EOF && !empty {
 			return nil
 		}
+		if err != nil && err != io.EOF {
+			return err
+		}
 		if s.used == 0 {
 			if err == nil {
 				err = io.EOF
